@@ -560,3 +560,68 @@ Definition l3 : aline := (t "root" false, [t "/srv" true]).
 Definition cfg := [mkb (t "a.com" false) [] [l1; l2; l3]].
 Definition cfg' := [mkb (t "a.com" false) [] [l1; l3; l2]].
 End ContinuedExample.
+
+(* ---- snippets and their imports on the AST as written (C09_Model.expand_lines) ---- *)
+Local Close Scope string_scope.
+
+(* a block without import lines is its own expansion: the text cases without snippets are judged as before *)
+Lemma expand_lines_no_import sn : forall ls, forallb al_ok ls = true -> C09_Model.expand_lines sn ls = ls.
+Proof.
+  induction ls as [|l r IH]; intro H; [reflexivity|].
+  cbn [forallb] in H. apply andb_true_iff in H as [Hl Hr].
+  unfold C09_Model.expand_lines in *. cbn [flat_map]. rewrite (IH Hr).
+  unfold C09_Model.expand_line. unfold al_ok in Hl. destruct l as [[h hn] rs]. cbn [fst snd] in *.
+  apply andb_true_iff in Hl as [Hl _]. apply andb_true_iff in Hl as [Hl _]. apply andb_true_iff in Hl as [_ Hi].
+  apply negb_true_iff in Hi. rewrite Hi. reflexivity.
+Qed.
+
+Lemma tb_list_refl : forall l : list (bytes * bool), list_beq C09_Model.tb_eqb l l = true.
+Proof.
+  induction l as [|x r IH]; [reflexivity|]. cbn [list_beq]. rewrite IH.
+  unfold C09_Model.tb_eqb. rewrite beq_refl, Bool.eqb_reflx. reflexivity.
+Qed.
+
+(* the judge's test of admissibility on the expanded lines accepts EVERY admissible reordering: no reordering
+   the property quantifies over escapes the comparison of the two responses *)
+Lemma exp_admissible_complete env els els' :
+  C09_Model.admissible (map (C09_Model.lview env) els) (map (C09_Model.lview env) els') ->
+  C09_Model.exp_admissible env els els' = true.
+Proof.
+  intros [_ HF]. unfold C09_Model.exp_admissible. apply forallb_forall. intros l _.
+  unfold C09_Model.group. rewrite (HF (fst (C09_Model.lview env l))). apply tb_list_refl.
+Qed.
+
+(* a line of a snippet standing in the block through an import: the token that opens it carries the mark of its
+   import statement, which is never 0 (the mark of tokens written in the input itself) and differs between two
+   import statements - so the Dispenser's line test sees it on a NEW line whatever the line numbers are (a
+   snippet's tokens keep the line numbers of its definition, which lie ABOVE the block) *)
+Lemma own_then_imported_new_line a b n :
+  t_imp a = 0%N -> next_on_new_line a (set_imp (n + 1) b) = true /\ same_line a (set_imp (n + 1) b) = false.
+Proof.
+  intro H. unfold next_on_new_line, same_line, set_imp. cbn [t_imp t_file t_line]. rewrite H.
+  assert (Hn : (0 =? n + 1)%N = false) by (apply N.eqb_neq; lia).
+  rewrite Hn. cbn [negb]. rewrite Bool.orb_true_r, Bool.andb_false_r. split; reflexivity.
+Qed.
+
+Lemma imported_by_different_statements_new_line a b n m :
+  n <> m -> next_on_new_line (set_imp n a) (set_imp m b) = true /\ same_line (set_imp n a) (set_imp m b) = false.
+Proof.
+  intro H. unfold next_on_new_line, same_line, set_imp. cbn [t_imp t_file t_line].
+  assert (Hn : (n =? m)%N = false) by (apply N.eqb_neq; exact H).
+  rewrite Hn. cbn [negb]. rewrite Bool.orb_true_r, Bool.andb_false_r. split; reflexivity.
+Qed.
+
+(* doImport numbers the import statements from 1: the mark it gives is the incremented counter *)
+Lemma do_import_marks_from_one env maxi globs files st st' :
+  do_import env maxi globs files st = POk st' ->
+  p_imports st' = (p_imports (snd (next_arg st)) + 1)%N /\ p_imports st' <> 0%N.
+Proof.
+  unfold do_import. destruct (next_arg st) as [has st1]. cbn [snd].
+  destruct (negb has); [discriminate|].
+  destruct (renv env (pval st1)); [discriminate|].
+  destruct (maxi <? p_imports st1 + 1)%N; [discriminate|].
+  destruct (next_arg st1) as [has2 ?]. destruct has2; [discriminate|].
+  destruct (zslice_to _ _); [|discriminate]. destruct (zslice_from _ _); [|discriminate].
+  destruct (imported_tokens _ _ _ _); try discriminate.
+  intro H. injection H as <-. cbn [p_imports]. split; [reflexivity|lia].
+Qed.
